@@ -12,7 +12,8 @@
      clamps, the refusal (before any page is touched) when a half would not fit (commit 9c96190),
      rebuild of both halves by insert_cell;
    - propagate_split / insert_into_interior (both branches, by slot index) / split_interior with
-     the split point chosen by bytes, nearest to the middle (commit a0471f9) / create_new_root, page numbers handed out by allocate_page in the order of the code;
+     the split point chosen by bytes, nearest to the middle (commit a0471f9), an interior page without
+     separators handled explicitly (commit 691ce2c) / create_new_root, page numbers handed out by allocate_page in the order of the code;
    - the rightmost-leaf hint and both fast paths (an empty hinted leaf is not accepted, a847df1);
      delete without rebalancing; the three update cases (a growing update first checks room for
      the whole new cell, 0e115d7); cursor_first / cursor_seek / cursor_last, advance with
@@ -295,7 +296,11 @@ Definition int_ins (id : Z) (kids : list kid) (right : tree) (i : nat) (L : tree
   let '(kids1, right1) := set_child kids right i L in
   if klen s + ISLOT <=? ifree kids then
     match last (map (fun x => Some (fst x)) kids) None with
-    | None => IErr EZeroSep          (* cell_count() as usize - 1 on an interior page without separators *)
+    | None =>                        (* count == 0 (commit 691ce2c): the separator goes in front of the right child *)
+        match ipos s kids1 with
+        | None => IErr ESepDup
+        | Some p => IOk (Node id (insert_at p (s, right1) kids1) R) np
+        end
     | Some lastk =>
         if kleb lastk s then
           match ipos s kids1 with
@@ -552,14 +557,15 @@ Inductive op :=
 Inductive out :=
 | RUnit | RBool (b : bool) | RUniq (b : bool) | ROpt (o : option V) | RList (l : list entry) | RErr | RPanic.
 
-(* outcome codes of the model (0 = regular).  F_ZSEP is the one defect class that survives on the repaired
-   tree (finding F-C28-8); the other codes mark branches of the code that Proof/BTree*.v shows unreachable from
-   a well-formed tree (they exist so that the model never hides an error path behind a default). *)
+(* outcome codes of the model (0 = regular).  All non-zero codes mark branches of the code that Proof/BTree*.v
+   shows unreachable from a well-formed tree (they exist so that the model never hides an error path behind a
+   default).  F_ZSEP was the zero-separator panic (finding F-C28-8), repaired by commit 691ce2c: no branch of the
+   model produces it any more. *)
 Definition F_UPD : Z := 4.      (* insert_cell failing after delete_cell inside update *)
 Definition F_LEAFFULL : Z := 5. (* rebuilding a leaf half failing after the size check *)
 Definition F_SEPDUP : Z := 6.   (* "separator key already exists" *)
 Definition F_INTFULL : Z := 7.  (* split_interior: no split point / a half does not fit *)
-Definition F_ZSEP : Z := 8.     (* `cell_count() as usize - 1` on an interior page without separators: panic (overflow checks on) *)
+Definition F_ZSEP : Z := 8.     (* HISTORICAL: `cell_count() as usize - 1` on an interior page without separators *)
 Definition F_FUEL : Z := 9.
 Definition F_PANIC : Z := 10.   (* any other panic branch *)
 
@@ -662,8 +668,6 @@ Fixpoint run (s : state) (ops : list op) : list (out * Z) * state :=
 
 (* every operation took a regular branch *)
 Definition all_clear (res : list (out * Z)) : bool := forallb (fun p : out * Z => snd p =? 0) res.
-(* the zero-separator panic (the one surviving defect class) did not occur *)
-Definition no_zsep (res : list (out * Z)) : bool := forallb (fun p : out * Z => negb (snd p =? F_ZSEP)) res.
 Fixpoint first_flag (a : list (out * Z)) : Z :=
   match a with [] => 0 | (_, f) :: r => if f =? 0 then first_flag r else f end.
 Definition abs_of (s : state) : list entry := abs (depth (root s)) (root s).
